@@ -23,6 +23,32 @@ type Loop struct {
 	Idx    ssa.Value
 	Over   ssa.Value // the slice (or map for MapRange) being ranged
 	MapIt  *ssa.Range
+	// Rotated: the loop is go/ssa's lowering of `for i := range n`: the header is the top of the
+	// body, the exhaustion test sits before the loop and at the end of every trip
+	Rotated bool
+}
+
+// bodyPC: the path condition of the loop body's first statement.
+func (l *Loop) bodyPC(ctx *Ctx) *Formula {
+	if l.Rotated {
+		return ctx.BlockPC(l.Header)
+	}
+	return And(ctx.BlockPC(l.Header), ctx.edgeCond(l.Header, l.Header.Succs[0]))
+}
+
+// exhaustionExit: the edge out of the loop from block b is the loop's own "no more elements" exit.
+func (l *Loop) exhaustionExit(b *ssa.BasicBlock) bool {
+	if b == l.Header && !l.Rotated {
+		return true
+	}
+	if l.Rotated {
+		for _, lt := range l.Latches {
+			if lt == b {
+				return true
+			}
+		}
+	}
+	return false
 }
 
 var loopCache = map[*ssa.Function][]*Loop{}
@@ -130,6 +156,7 @@ func (l *Loop) detectRange() {
 					continue
 				}
 				l.IdxPhi, l.Idx, l.Over = ph, ph, x
+				_, l.Rotated = rotatedCounted(ph)
 				return
 			}
 		}
@@ -156,7 +183,7 @@ func (l *Loop) FullTraversal() bool {
 		return false
 	}
 	for _, e := range l.Exits {
-		if e[0] != l.Header {
+		if !l.exhaustionExit(e[0]) {
 			return false
 		}
 	}
@@ -304,7 +331,7 @@ func boundedAccumulators(fn *ssa.Function) []*BoundedAcc {
 			continue
 		}
 		for _, e := range l.Exits {
-			if e[0] == l.Header {
+			if l.exhaustionExit(e[0]) {
 				continue
 			}
 			br, ok := e[0].Instrs[len(e[0].Instrs)-1].(*ssa.If)
